@@ -69,8 +69,8 @@ var treeFieldWrites = map[string]bool{"Status": true, "Parent": true, "children"
 // labelled branches: function -> substring of the condition -> label
 type labelRule struct {
 	fn, cond string
-	label int
-	name  string
+	label    int
+	name     string
 }
 
 var labelled = []labelRule{
@@ -113,15 +113,15 @@ type structInfo struct {
 }
 
 type program struct {
-	fset    *token.FileSet
-	repo    string
-	funcs   map[string]*fnInfo
-	structs map[string]*structInfo
-	consts  map[string]int
-	caps    map[string]int // channel identity -> capacity
-	elem    map[string]string // channel identity -> element type name
-	msgType map[string]bool   // struct types that travel over a channel
-	interesting map[string]int // memo: 0 unknown, 1 yes, 2 no, 3 in progress
+	fset        *token.FileSet
+	repo        string
+	funcs       map[string]*fnInfo
+	structs     map[string]*structInfo
+	consts      map[string]int
+	caps        map[string]int    // channel identity -> capacity
+	elem        map[string]string // channel identity -> element type name
+	msgType     map[string]bool   // struct types that travel over a channel
+	interesting map[string]int    // memo: 0 unknown, 1 yes, 2 no, 3 in progress
 }
 
 func fatal(format string, a ...interface{}) {
